@@ -49,6 +49,7 @@ impl Monitor for C15 {
             "build/with_defaults",
             "history_without_failing_call",
             "history_with_more_than_65535_terms",
+            "term_id_0_present",
         ]
         .iter()
         .map(|s| (*s).to_string())
@@ -94,13 +95,21 @@ impl Monitor for C15 {
             }
             out.bucket("history_with_more_than_65535_terms");
         }
+        // HP:0000000 is an ordinary term id: present in a third of the histories, otherwise a popular absent id
+        if rng.chance(1, 3) {
+            present.push(0);
+            out.bucket("term_id_0_present");
+        }
         let absent_near = |rng: &mut Rng, present: &[u32]| -> u32 {
             loop {
                 let base = *rng.pick(present);
-                let cand = match rng.below(4) {
+                let cand = match rng.below(6) {
                     0 => base + 1,
                     1 => base.saturating_sub(1),
                     2 => rng.range(1000, 9_999_999) as u32,
+                    // ids beyond the 10^7 id space are absent by construction
+                    3 => *rng.pick(&[10_000_000u32, 10_000_001, 12_345_678, u32::MAX, u32::MAX - 1]),
+                    4 => 9_999_999,
                     _ => 0,
                 };
                 if !present.contains(&cand) {
